@@ -120,7 +120,7 @@ class CumSumSoftPlusTransform(Transform):
     sign = +1
 
     def _call(self, x):
-        return torch.log(x.cumsum(-1).exp() + 1.0)
+        return softplus(x.cumsum(-1))
 
     def _inverse(self, y):
         y_log = torch.expm1(y).log()
